@@ -394,6 +394,21 @@ def a_split_bars(s, a):
     return {"bars": tracks, "own": a["pos"]}
 
 
+_TOKENISER = []
+
+
+def a_tokenise(s, a):
+    """tokenise([s]) assigns channel 0 to the input (a mutation through set_channel) and reads it through merge."""
+    from scoda.exceptions.tokenisation_exception import TokenisationException
+    from scoda.tokenisation.notelike_tokenisation import MultiTrackLargeVocabularyNotelikeTokeniser
+    if not _TOKENISER:
+        _TOKENISER.append(MultiTrackLargeVocabularyNotelikeTokeniser(num_tracks=1, flag_fuse_track=False))
+    try:
+        return ["tokens", _TOKENISER[0].tokenise([s], state_dict={})]
+    except TokenisationException as e:
+        return ["refused", str(e)[:60]]
+
+
 def a_read_abs(s, a):
     s.abs
 
@@ -517,6 +532,7 @@ OPS = {
     "quantise_note_lengths": (MUT, g_qnl, a_qnl, 4, True),
     "quantise_and_normalise": (MUT, g_qan, a_qan, 3, True),
     "direct_edit": (DIRECT, g_direct, a_direct, 4, False),
+    "tokenise": (MUT, g_none, a_tokenise, 2, True),
     "split": (VAL, g_split, a_split, 4, False),
     "copy": (VAL, g_none, a_copy, 3, False),
     "equals": (VAL, g_equals, a_equals, 2, True),
